@@ -364,6 +364,12 @@ def rule4(ctx, prog, flows):
                 if isinstance(t, tuple) and t[0] == "discr" and isinstance(val, tuple):
                     # match on an Option/Result returned by a lookup: None = 0 / Err = 1
                     ok = True
+                if isinstance(t, tuple) and t[0] == "place" and "." not in t[1] and val is False:
+                    # `let both_present = has(u) && has(v); if !both_present { Err(NotFound) }`: a boolean computed from lookups
+                    for l_ in b.locals_named(t[1]):
+                        sl_ = fl.slice_local({("L", l_)}, data_only=False)
+                        if any(n_[0] == "CALL" and b.blocks[n_[1]].term.callee and b.blocks[n_[1]].term.callee.short.split("::")[-1] in ("contains_key", "has_node", "has_nodes", "get", "get_node", "get_node_index") for n_ in sl_):
+                            ok = True
             ctx.require(ok, "R-C02-4", "notfound|%s|%s" % (b.short, v), "%s in %s is conditional on a failed lookup" % (v, b.short.split("::")[-1]), "%s in %s is not conditional on a lookup" % (v, b.short), loc_str(s.span))
     ctx.floor("R-C02-4", "notfound_sites", m, 5)
 
